@@ -747,6 +747,9 @@ impl Check for C14 {
                 if call.crash_at > 0 && got == "PANIC" {
                     stats.hit("fault.client_crash_mid_call");
                 }
+                if call.reenter > 0 {
+                    stats.hit("fault.reentrant_nested_calls");
+                }
                 if let Op::FindIter { requests, .. } = &call.op {
                     if *requests < 100 {
                         stats.hit("fault.abandoned_lazy_iterator");
@@ -917,6 +920,6 @@ impl Check for C14 {
     }
 
     fn fault_kinds(&self) -> Vec<&'static str> {
-        vec!["fault.client_crash_mid_call", "fault.abandoned_lazy_iterator"]
+        vec!["fault.client_crash_mid_call", "fault.abandoned_lazy_iterator", "fault.reentrant_nested_calls"]
     }
 }
